@@ -33,8 +33,16 @@ func (c cfg) String() string {
 func build(c cfg, opts model.Options) *rux.Router {
 	r := opts.NewRouter()
 	for i := 0; i < c.nGlobal; i++ {
-		r.Use(func(c *rux.Context) { c.Next() })
+		r.Use(func(c *rux.Context) { c.Next() }) // separate Use calls: the global chain grows by append
 	}
+	// the last global middleware serves, when the request asks for it, another request through the same router
+	// before it goes on: two resolutions overlap (as two requests in flight do), and neither may disturb the other
+	r.Use(func(c *rux.Context) {
+		if m, p := c.Req.Header.Get("X-Nest-Method"), c.Req.Header.Get("X-Nest-Path"); m != "" {
+			r.ServeHTTP(httptest.NewRecorder(), &http.Request{Method: m, URL: &url.URL{Path: p}, Header: http.Header{}, Proto: "HTTP/1.1"})
+		}
+		c.Next()
+	})
 	model.Register(r, c.tb.Routes, func(d model.RouteDef) rux.HandlerFunc {
 		name := d.Name()
 		return func(c *rux.Context) { c.WriteString(name) }
@@ -163,7 +171,7 @@ func prop(t *rapid.T) {
 	o.Order, o.Via = model.GenOrder(t), model.GenVia(t)
 	c.customNF = rapid.Bool().Draw(t, "customNF")
 	c.customNA = rapid.Bool().Draw(t, "customNA")
-	c.nGlobal = rapid.IntRange(0, 2).Draw(t, "nGlobalMw")
+	c.nGlobal = rapid.IntRange(0, 3).Draw(t, "nGlobalMw")
 	tc := model.TableCfg{MaxRoutes: ev.Pick(6, 10), Gen: model.GenCfg{MaxSegs: 3, RichLits: false}, Fallback: true}
 	c.tb.Routes = model.GenRoutes(t, tc, o.Strict)
 	if len(c.tb.Routes) == 0 {
@@ -230,6 +238,20 @@ func prop(t *rapid.T) {
 			if msg := checkIntercept(r, twin, c, method, path); msg != "" {
 				t.Fatalf("%s", msg)
 			}
+		}
+		if rapid.IntRange(0, 2).Draw(t, "overlap") == 0 {
+			// the same request again, this time with another request resolved in the middle of it
+			p2, _, _, _, _ := model.GenProbePath(t, c.tb.Routes)
+			m2 := rapid.SampledFrom(append(append([]string{}, model.Methods...), "PURGE")).Draw(t, "nestedMethod")
+			plain := serve(r, method, path)
+			rec := httptest.NewRecorder()
+			r.ServeHTTP(rec, &http.Request{Method: method, URL: &url.URL{Path: path}, Header: http.Header{"X-Nest-Method": {m2}, "X-Nest-Path": {p2}}, Proto: "HTTP/1.1"})
+			ev.Eval()
+			if rec.Code != plain.Code || rec.Body.String() != plain.Body.String() || rec.Header().Get("Allow") != plain.Header().Get("Allow") {
+				t.Fatalf("%s %q answers %d %q Allow=%q when %s %q is resolved in the middle of it, and %d %q Allow=%q alone\n config: %s",
+					method, path, rec.Code, rec.Body.String(), rec.Header().Get("Allow"), m2, p2, plain.Code, plain.Body.String(), plain.Header().Get("Allow"), c)
+			}
+			ev.Class("probe:with-another-resolution-in-the-middle:" + res.Kind.String() + "/" + c.tb.Resolve(m2, p2).Kind.String())
 		}
 	}
 }
